@@ -683,8 +683,12 @@ def r7(ctx):
             ctx.look()
             rec = [c for c in ast.walk(f.node) if isinstance(c, ast.Call) and dotted(c.func) == "find_nulls"]
             upd = [c for c in ast.walk(f.node) if isinstance(c, ast.Call) and isinstance(c.func, ast.Attribute) and c.func.attr in ("update", "union")]
-            loops = [n for n in ast.walk(f.node) if isinstance(n, ast.For)]
-            ok = bool(rec) and bool(upd) and bool(loops) and "values" in norm(loops[0].iter)
+            # the iteration over all values: a loop or a comprehension / generator over values(.values())
+            its = [n.iter for n in ast.walk(f.node) if isinstance(n, ast.For)] + \
+                  [g.iter for n in ast.walk(f.node) if isinstance(n, (ast.GeneratorExp, ast.ListComp, ast.SetComp)) for g in n.generators]
+            pv = param_names(f.node)[0]
+            ok = bool(rec) and bool(upd) and bool(its) and norm(its[0]) in (f"{pv}.values()", pv + ".values()") and not any(
+                isinstance(n, (ast.GeneratorExp, ast.ListComp, ast.SetComp)) and any(g.ifs for g in n.generators) for n in ast.walk(f.node))
             ctx.check(ok, "C06.R7", "find_nulls[dict] unions the nulls of every value", f.where, ctx.construct(f, text="dict"),
                       "nulls of multi-column factors must be the union over all columns")
         if ann == "list":
